@@ -3,6 +3,7 @@
 -/
 import ElfVerif.Lemmas.Hash
 import ElfVerif.Lemmas.GnuComplete
+import ElfVerif.Lemmas.GnuBuild
 namespace Elf.C11
 
 /-- **Soundness, for any table bytes.** -/
@@ -169,5 +170,54 @@ theorem gWF : WFGnu gT gSym gStr := by
     exact GnuChain.last 0 177671 _ _ (by decide) (by decide) (by decide) (by decide) (by decide) (by decide)
 example : (gT.find (Slice.ofArray #[97]) gSym gStr) = .ok (some (1, ⟨1,1,0x12,0,0,0⟩)) := by decide
 example : bloomAccepts gT (gnuHash (Slice.ofArray #[97])) 16777280 := by unfold bloomAccepts; decide
+
+/-! ## Tables laid out the linker's way -/
+
+/-- **Any `.gnu.hash` section laid out the linker's way is well-formed** (hashed symbols sorted by
+    bucket, chain word = hash with the stop bit on the last symbol of its bucket, bucket head = first
+    symbol of the bucket or a value below `symoffset`, both bloom bits of every symbol set) — for
+    every number of symbols, buckets and bloom words, every shift, both classes. -/
+theorem laid_out_wf {t : GnuHashTable} {symtab : Table Symbol} {strtab : Slice} {m : Nat}
+    {sym : Nat → Symbol} {w : Nat → Slice} {c f s : Nat → Nat}
+    (h : GnuBuild.LaidOut t symtab strtab m sym w c f s) : WFGnu t symtab strtab := GnuBuild.wf h
+
+/-- **The lookup finds every hashed symbol by name** in such a table. -/
+theorem laid_out_finds_every_symbol {t : GnuHashTable} {symtab : Table Symbol} {strtab : Slice} {m : Nat}
+    {sym : Nat → Symbol} {w : Nat → Slice} {c f s : Nat → Nat}
+    (h : GnuBuild.LaidOut t symtab strtab m sym w c f s)
+    (k : Nat) (hk : k < m) (name : Slice) (hname : (w k).beqBytes name = true) :
+    ∃ j sy, t.find name symtab strtab = .ok (some (j, sy)) ∧
+      ∃ w', symtab.get j = .ok sy ∧ strGetRaw strtab sy.st_name = .ok w' ∧ w'.beqBytes name = true :=
+  GnuBuild.finds_every_symbol h k hk name hname
+
+/-- **…and returns `None` for every name no hashed symbol carries**, colliding or not. -/
+theorem laid_out_absent {t : GnuHashTable} {symtab : Table Symbol} {strtab : Slice} {m : Nat}
+    {sym : Nat → Symbol} {w : Nat → Slice} {c f s : Nat → Nat}
+    (h : GnuBuild.LaidOut t symtab strtab m sym w c f s)
+    (name : Slice) (habs : ∀ k, k < m → (w k).beqBytes name = false) :
+    t.find name symtab strtab = .ok none := GnuBuild.absent_is_none h name habs
+
+/- Non-vacuity: the example table is laid out that way (one hashed symbol "a" at symbol index 1). -/
+theorem gLaidOut : GnuBuild.LaidOut gT gSym gStr 1 (fun _ => ⟨1,1,0x12,0,0,0⟩) (fun _ => ⟨gStr.buf, 1, 2⟩)
+    (fun _ => 177671) (fun _ => 16777280) (fun _ => 1) := by
+  refine ⟨by decide, by decide, by decide, by decide, by decide, ?_, ?_, ?_, ?_, ?_, ?_⟩
+  · intro k hk
+    have : k = 0 := by omega
+    subst this; exact ⟨by decide, by decide, by decide, by decide⟩
+  · intro k hk; omega
+  · intro k hk
+    have : k = 0 := by omega
+    subst this; decide
+  · intro b hb
+    have : b = 0 := by have : gT.buckets.len = 1 := by decide
+                       omega
+    subst this
+    exact ⟨by decide, Or.inr ⟨0, by decide, by decide, by decide, fun k' hk' => by omega⟩⟩
+  · intro i hi
+    have : i = 0 := by have : gT.hdr.nbloom = 1 := rfl
+                       omega
+    subst this; decide
+  · intro k hk
+    unfold bloomAccepts; decide
 
 end Elf.C11
